@@ -148,6 +148,96 @@ func (c *Check) tlvLoopRules(rule, fnName string, bParam int) {
 	c.floor(rule+" advance", found, 1, "TLV cursor phi in "+fnName)
 }
 
+// tlvExactFit: a last element that exactly fills the rest of the block is
+// accepted (when its own decoder accepts it), and an element decoder's error
+// is this decoder's error. The assumption is placed on the cursor at the loop
+// head: len(cursor) == 2 + int(cursor[1]).
+func (c *Check) tlvExactFit(rule, fnName string, bParam int, inner string, typeOctet int64) {
+	p := c.P
+	fn := p.Fn(fnName)
+	if fn == nil {
+		return
+	}
+	var cursor *ssa.Phi
+	for _, b := range fn.Blocks {
+		for _, in := range b.Instrs {
+			phi, ok := in.(*ssa.Phi)
+			if !ok {
+				break
+			}
+			if _, isSlice := phi.Type().Underlying().(*types.Slice); !isSlice || !inLoop(b) {
+				continue
+			}
+			for i, e := range phi.Edges {
+				if !b.Dominates(b.Preds[i]) && e == ssa.Value(fn.Params[bParam]) {
+					cursor = phi
+				}
+			}
+		}
+	}
+	if cursor == nil {
+		c.undecided(rule, fnName, "cursor", p.Pos(fn.Pos()), "no cursor over the block parameter found")
+		return
+	}
+	leaf := mkLeaf("phi", cursor.Name(), cursor.Type())
+	isOctet := func(k int64) func(e *Expr) bool {
+		return func(e *Expr) bool {
+			if e.Op != "ld" || e.Args[0].Op != "ia" || e.Args[0].Args[0].Key != leaf.Key {
+				return false
+			}
+			iv, isC := e.Args[0].Args[1].IsConst()
+			return isC && iv == k
+		}
+	}
+	maxLen := int64(253)
+	if r, has := p.entryLenFacts(fn, map[*ssa.Function]*Analysis{})[bParam]; has && !r.Empty() && r.Hi() != posInf && r.Hi()-2 < maxLen {
+		maxLen = r.Hi() - 2
+	}
+	exact := func(from, to *ssa.BasicBlock, st *State) {
+		if to != cursor.Block() {
+			return
+		}
+		lenByte := mk("ld", types.Typ[types.Uint8], "@"+st.ver["E:*uint8"], 0, mkIndexAddr(leaf, mkConst(1, intT), nil))
+		d := st.linOf(mkLen(leaf)).add(linConst(2), -1).add(st.linOf(lenByte), -1)
+		st.addFact(Fact{L: d})
+		st.addFact(Fact{L: d.neg()})
+	}
+	for _, innerFails := range []bool{false, true} {
+		if innerFails && inner == "" {
+			continue
+		}
+		a := NewAnalysis(p, fn)
+		h := rangeHook(isOctet(1), isRange(2, maxLen))
+		if typeOctet >= 0 {
+			h = hooks(h, rangeHook(isOctet(0), isConst(typeOctet)))
+		}
+		if inner != "" {
+			h = hooks(h, nnResult(inner, innerFails))
+		}
+		a.AtomHook = h
+		a.AfterFlow = exact
+		a.Run()
+		if len(a.Undecided) > 0 {
+			c.undecided(rule, fnName, "exact fit", p.Pos(fn.Pos()), a.Undecided[0])
+			continue
+		}
+		acc, rej := 0, 0
+		for _, rs := range p.errReturns(a) {
+			if isAccept(rs) {
+				acc++
+			} else {
+				rej++
+			}
+		}
+		if innerFails {
+			c.require(acc == 0 && rej > 0, rule, fnName, "element decoder fails => error", p.Pos(fn.Pos()), "the element decoder's error is returned; nothing is accepted")
+		} else {
+			c.require(acc > 0 && rej == 0, rule, fnName, "last element fills the block exactly => accepted", p.Pos(fn.Pos()),
+				fmt.Sprintf("with len(rest) == 2+len octet the element is complete: %d accepting and %d rejecting return(s) reachable", acc, rej))
+		}
+	}
+}
+
 func checkC02Decode(c *Check) {
 	p := c.P
 	dec := p.Fn("openMessage.decode")
@@ -230,6 +320,62 @@ func checkC02Decode(c *Check) {
 	c.disableEnablePairing("C02.5 accepted-open-approved")
 	c.tlvLoopRules("C02.4 optional-parameters", "decodeOptionalParams", 0)
 	c.tlvLoopRules("C02.4 capabilities", "capabilityOptionalParam.decode", 1)
+	c.tlvExactFit("C02.4 optional-parameters exact-fit", "decodeOptionalParams", 0, "capabilityOptionalParam.decode", p.MustConst("capabilityOptionalParamType"))
+	c.tlvExactFit("C02.4 capabilities exact-fit", "capabilityOptionalParam.decode", 1, "", -1)
+
+	// the value handed to the capability-parameter decoder is cursor[2:2+len]
+	// (two cases on the length octet, as for capabilities)
+	if fn := p.Fn("decodeOptionalParams"); fn != nil {
+		isLenOctet := func(e *Expr) bool {
+			if e.Op != "ld" || e.Args[0].Op != "ia" {
+				return false
+			}
+			iv, isC := e.Args[0].Args[1].IsConst()
+			return isC && iv == 1 && e.Args[0].Args[0].Op == "phi"
+		}
+		n := 0
+		for _, withValue := range []bool{true, false} {
+			a := NewAnalysis(p, fn)
+			if withValue {
+				maxLen := int64(255)
+				if r, has := p.entryLenFacts(fn, map[*ssa.Function]*Analysis{})[0]; has && !r.Empty() && r.Hi() != posInf && r.Hi()-2 < maxLen {
+					maxLen = r.Hi() - 2
+				}
+				a.AtomHook = rangeHook(isLenOctet, isRange(1, maxLen))
+			} else {
+				a.AtomHook = rangeHook(isLenOctet, isConst(0))
+			}
+			a.Run()
+			for _, cl := range p.callsIn(fn, descIs("capabilityOptionalParam.decode")) {
+				for _, st := range a.At[cl.(ssa.Instruction)] {
+					n++
+					args := a.argExprs(st, nil, cl.Common())
+					val := args[len(args)-1]
+					r, lo, hi := sliceParts(val)
+					ok := false
+					if withValue {
+						if r.Op == "phi" && lo != nil && hi != nil {
+							l := st.linOf(hi).add(st.linOf(lo), -1)
+							ok = len(l.T) == 1 && l.C == 0
+							for k, coef := range l.T {
+								if coef != 1 || !isLenOctet(l.E[k]) || l.E[k].Args[0].Args[0].Key != r.Key {
+									ok = false
+								}
+							}
+							lv, isC := lo.IsConst()
+							ok = ok && isC && lv == 2
+						}
+					} else {
+						z, isZ := st.rangeOf(mkLen(val)).IsConst()
+						ok = isZ && z == 0
+					}
+					c.require(ok, "C02.4 optional-parameters value", "decodeOptionalParams", fmt.Sprintf("parameter value (non-empty=%v)", withValue), p.InstrPos(cl.(ssa.Instruction)),
+						"the capability parameter is decoded from cursor[2:2+len] (empty for len 0); got "+trunc(val.Key, 80))
+				}
+			}
+		}
+		c.floor("C02.4 optional-parameters value", n, 2, "capability-parameter decode calls analysed")
+	}
 
 	// parameter type dispatch: non-capability parameter => (2,4); capability => never (2,4)
 	capType := p.MustConst("capabilityOptionalParamType")
@@ -263,6 +409,9 @@ func (p *Prog) closureWithCall(parent *ssa.Function, pred func(string) bool) *ss
 func checkC02OpenSent(c *Check) {
 	p := c.P
 	c.cleanupContract("C02.5 refusal-closes-connection")
+	c.messageResults("C02.3 decode-result-used")
+	c.codecContracts("C02.3 codec-effects")
+	c.specConstants("C02.1 spec-constants", "NOTIF_CODE_OPEN_MESSAGE_ERR", "NOTIF_SUBCODE_UNSUPPORTED_VERSION_NUM", "NOTIF_SUBCODE_BAD_PEER_AS", "NOTIF_SUBCODE_BAD_BGP_ID", "NOTIF_SUBCODE_UNSUPPORTED_OPTIONAL_PARAM", "NOTIF_SUBCODE_UNACCEPTABLE_HOLD_TIME", "NOTIF_SUBCODE_UNSUPPORTED_CAPABILITY", "asTrans", "capabilityOptionalParamType", "CAP_FOUR_OCTET_AS", "openMessageType")
 	outer := p.Fn("fsm.openSent")
 	if outer == nil {
 		return
